@@ -625,6 +625,39 @@ func runMachine(t *rapid.T, seed []byte) (w *world) {
 			checkErr(t, w, w.unchanged(before, "start-request flood during a legitimate pair-verify"))
 			w.flags["flood-during-legit-verify"] = true
 		},
+		"attacker-reuses-source-address-of-verified-connection": func(t *rapid.T) {
+			// the verified controller's connection is reset and the attacker connects at once from the very same
+			// source address and port; whatever the accessory's bookkeeping does in that race, the new
+			// connection never ran pair-verify and must not be served
+			if rapid.IntRange(0, 2).Draw(t, "rarely") > 0 {
+				t.Skip("kept rare")
+			}
+			checkErr(t, w, w.legitEnsure())
+			note("L's connection is reset, an attacker reconnects from the same source port (x4)")
+			before := w.snap()
+			for round := 0; round < 4; round++ {
+				checkErr(t, w, w.legitEnsure())
+				port := w.lconn.LocalPort()
+				w.lconn.Reset()
+				w.lconn, w.lVerifiedNow = nil, false
+				cl, err := refctl.DialFrom(w.acc.Addr, port)
+				if err != nil {
+					continue // the port was not free yet: nothing to judge in this round
+				}
+				cl.Timeout = 8 * time.Second
+				rq := w.protectedRequest(t)
+				r, derr := cl.Do(rq.method, rq.path, rq.ctype, rq.body)
+				what := fmt.Sprintf("new unverified connection from the source address of a just-reset verified connection, plaintext %s %s", rq.method, rq.path)
+				if rq.protected {
+					checkErr(t, w, judgeProtected(what, r, derr, cl))
+				} else {
+					checkErr(t, w, judgeLenient(what, r, derr, cl))
+				}
+				cl.Close()
+				w.flags["source-address-reuse"] = true
+			}
+			checkErr(t, w, w.unchanged(before, "source address reuse"))
+		},
 		"attacker-close": func(t *rapid.T) {
 			i := pick()
 			note(fmt.Sprintf("att%d close", i))
